@@ -328,11 +328,14 @@ register("C19", title="time safeguard", pkg="./internal/timesafeguard",
                     "exercised (not asserted) by the real-binary scenarios of C05, which run with the safeguard enabled")
 register("C18", title="codecs round-trip",
          parts=[{"pkg": "./internal/raftstore", "test": "^TestVerifC18$", "children": {"quick": 8, "thorough": 16}, "cases": {"quick": 15000, "thorough": 300000}},
-                {"pkg": "./internal/outputstream", "test": "^TestVerifC18Batch$", "children": {"quick": 4, "thorough": 8}, "cases": {"quick": 10000, "thorough": 300000}}],
+                {"pkg": "./internal/outputstream", "test": "^TestVerifC18Batch$", "children": {"quick": 4, "thorough": 8}, "cases": {"quick": 10000, "thorough": 300000}},
+                {"pkg": ".", "test": "^TestVerifC18Readers$", "children": {"quick": 4, "thorough": 16}, "cases": {"quick": 6, "thorough": 60}}],
          timeout={"quick": 300, "thorough": 1800}, level="exploration",
          rule="generated replicated messages (all types, all field subsets, 0/max integers, long valid UTF-8): protobuf and legacy JSON encoders against "
               "NewMessageFromBytes, id defaulting, ProtoMessage vs CopyToProtoMessage into a reused destination; raft log entries written by StoreLog(s)/"
-              "StoreLogProto read back through GetLog and raftlog.FromBytes; output batches through marshal/unmarshalMessageBatch. evaluations = values "
+              "StoreLogProto read back through GetLog and raftlog.FromBytes; output batches through marshal/unmarshalMessageBatch; package main: entries written "
+              "through FSM.Apply with a non-zero message offset are read again by restore (decodeProtobuf), by the snapshot decoder and by the text-log dump, and "
+              "state / output / dumped rows must equal what Apply produced. evaluations = values "
               "round-tripped; distinct = (type, set of non-default fields) resp. (#messages, #recipients)",
          floor={"quick": 50000, "thorough": 1000000},
          technique="round-trip / differential comparison of every writer-reader pair on generated values")
